@@ -7,8 +7,10 @@
 (* den > 0 (TLC integers are 32 bit: leaves are small; TLC aborts on        *)
 (* overflow, it never wraps silently).                                      *)
 (*                                                                          *)
-(* A state is one expression tree.  Node = <<tag, left, right, param>>,     *)
-(* absent children are <<>> (so that any two nodes are comparable).         *)
+(* A state is one expression tree (the history of operator applications     *)
+(* that produced a NumberError); an action applies one more operator of     *)
+(* the NumberError API to it.  Node = <<tag, left, right, param>>, absent   *)
+(* children are <<>> (so that any two nodes are comparable).                *)
 (*   "U"     leaf: uncertain number, param = <<vn, vd, en, ed>>,            *)
 (*           value vn/vd, sigma en/ed > 0.  Every leaf *occurrence* is an   *)
 (*           independent quantity (operands of an operator never share an   *)
@@ -128,44 +130,42 @@ Val(t) ==
          [] tag = "cal2c" -> G2(a, p)
          [] tag = "cal2l" -> G2(p, b)
 
-\* one more level of operators over the set S (alphabets cs, pn)
-Grow(S, cs, pn) ==
-    S
-    \cup {N("neg", t, Nil, <<>>) : t \in S}
-    \cup {N("powc", x[1], Nil, <<x[2]>>) :
-            x \in {y \in S \X pn : Small(Val(y[1])) /\ (y[2] <= 0 => RSgn(Val(y[1])) # 0)}}
-    \cup {N(x[1], x[2], Nil, x[3]) : x \in ConstOps \X S \X cs}
-    \cup {N(x[1], x[2], x[3], <<>>) :
-            x \in {y \in BinOps \X S \X S : y[1] = "div" => RSgn(Val(y[3])) # 0}}
+\* ---- declarative description of the reachable trees (used for the tables
+\* the harness reads; the run checks that Next reaches exactly these) ----
+\* one more level of operators (alphabets cs, pn).  The pieces are kept apart:
+\* TLC builds each comprehension quickly but a union of large lazily
+\* represented sets is quadratic.
+PowOK(t, n) == Small(Val(t)) /\ (n <= 0 => RSgn(Val(t)) # 0)
+GNeg(S) == {N("neg", t, Nil, <<>>) : t \in S}
+GPow(S, pn) == {N("powc", x[1], Nil, <<x[2]>>) : x \in {y \in S \X pn : PowOK(y[1], y[2])}}
+GConst(S, cs) == {N(x[1], x[2], Nil, x[3]) : x \in ConstOps \X S \X cs}
+GBin(S, R) == {N(x[1], x[2], x[3], <<>>) :
+                 x \in {y \in BinOps \X S \X R : y[1] = "div" => RSgn(Val(y[3])) # 0}}
+Grow(S, cs, pn) == S \cup GNeg(S) \cup GPow(S, pn) \cup GConst(S, cs) \cup GBin(S, S)
 
 T0 == {Leaf(p) : p \in ULeaves}
 T1 == Grow(T0, Consts, PowN)
-T2 == Grow(T1, Consts, PowN)
-\* depth 3 over smaller alphabets: operators over a depth-2 tree, the other
-\* operand of a binary operator being a leaf
-S0 == {Leaf(p) : p \in ULeaves3}
+\* all trees of depth <= 2 = T0 + one operator over depth <= 1 operands
+RatPieces2 == <<T0, GNeg(T1), GPow(T1, PowN), GConst(T1, Consts), GBin(T1, T1)>>
+\* family "rat3" (only if Depth >= 3), smaller alphabets: all trees of depth
+\* <= 2 and one operator over a tree of depth exactly 2, the other operand
+\* of a binary operator being a leaf
+S0 == IF Depth >= 3 THEN {Leaf(p) : p \in ULeaves3} ELSE {}
 S1 == Grow(S0, Consts3, PowN3)
 S2 == Grow(S1, Consts3, PowN3)
 D2 == S2 \ S1
-S3 == {N("neg", t, Nil, <<>>) : t \in D2}
-      \cup {N("powc", x[1], Nil, <<x[2]>>) :
-              x \in {y \in D2 \X PowN3 : Small(Val(y[1])) /\ (y[2] <= 0 => RSgn(Val(y[1])) # 0)}}
-      \cup {N(x[1], x[2], Nil, x[3]) : x \in ConstOps \X D2 \X Consts3}
-      \cup {N(x[1], x[2], x[3], <<>>) :
-              x \in {y \in BinOps \X D2 \X S0 : y[1] = "div" => RSgn(Val(y[3])) # 0}}
-      \cup {N(x[1], x[2], x[3], <<>>) :
-              x \in {y \in BinOps \X S0 \X D2 : y[1] = "div" => RSgn(Val(y[3])) # 0}}
+RatPieces3 == <<S0, GNeg(S1), GPow(S1, PowN3), GConst(S1, Consts3), GBin(S1, S1),
+                GNeg(D2), GPow(D2, PowN3), GConst(D2, Consts3), GBin(D2, S0), GBin(S0, D2)>>
 
-RatTrees == IF Depth >= 3 THEN T2 \cup S3 ELSE T2
-
-\* cal_err / apply at the root over depth <= 1 arguments
+\* cal_err / apply at the root over depth <= 1 arguments with tiny values
+Tiny(a) == Abs(a[1]) <= 6 /\ a[2] <= 6
+CalArgs == {t \in T1 : Tiny(Val(t))}
 CalTrees ==
-    {N("cal1", t, Nil, <<>>) : t \in T1}
-    \cup {N("cal2", x[1], x[2], <<>>) : x \in T1 \X T1}
-    \cup {N("cal2c", x[1], Nil, x[2]) : x \in T1 \X Consts}
-    \cup {N("cal2l", Nil, x[2], x[1]) : x \in Consts \X T1}
-    \cup {N("apply", x[1], Nil, <<x[2]>>) :
-            x \in {y \in T1 \X PowN : Small(Val(y[1])) /\ (y[2] <= 0 => RSgn(Val(y[1])) # 0)}}
+    {N("cal1", t, Nil, <<>>) : t \in CalArgs}
+    \cup {N("cal2", x[1], x[2], <<>>) : x \in CalArgs \X CalArgs}
+    \cup {N("cal2c", x[1], Nil, x[2]) : x \in CalArgs \X Consts}
+    \cup {N("cal2l", Nil, x[2], x[1]) : x \in Consts \X CalArgs}
+    \cup {N("apply", x[1], Nil, <<x[2]>>) : x \in {y \in CalArgs \X PowN : PowOK(y[1], y[2])}}
 
 \* constant (op) NumberError: float.__op__ returns NotImplemented and
 \* NumberError defines no __radd__/__rsub__/__rmul__/__rtruediv__  -> TypeError
@@ -198,7 +198,6 @@ TT2 ==
     \cup {N("div", x[1], x[2], <<>>) : x \in {y \in T0 \X TT1small : PosTag(y[2])}}
     \cup {N("exp", N("log", t, Nil, <<>>), Nil, <<>>) : t \in Pos(T0)}
     \cup {N("log", N("exp", t, Nil, <<>>), Nil, <<>>) : t \in T0}
-TransTrees == TT1 \cup TT2
 
 --------------------------------------------------------------------------
 (* Rule: the operator rules as implemented (err_num.py)                     *)
@@ -241,7 +240,7 @@ Rule(t) ==
          [] tag = "cal2c" -> <<G2(a[1], p), 1, RMul(RSq(G2Grad(a[1], p)[1]), a[3])>>
          [] tag = "cal2l" -> <<G2(p, b[1]), 1, RMul(RSq(G2Grad(p, b[1])[2]), b[3])>>
 
-RuleNeg(t) == Rule(t)[2] = -1 /\ Rule(t)[3][1] > 0       \* a negative sigma
+RuleNeg(t) == LET r == Rule(t) IN r[2] = -1 /\ r[3][1] > 0       \* a negative sigma
 
 --------------------------------------------------------------------------
 (* Ref: first-order propagation by forward-mode differentiation            *)
@@ -290,9 +289,9 @@ Dual(t, k) ==
 Grad(t) == [k \in 1..NL(t) |-> Dual(t, k)[2]]
 RECURSIVE SumTo(_, _)
 SumTo(f, n) == IF n = 0 THEN Zero ELSE RAdd(SumTo(f, n - 1), f[n])
-Ref(t) == LET ls == LeafSeq(t)
-              g == Grad(t)
-          IN SumTo([k \in 1..NL(t) |-> RMul(RSq(g[k]), RSq(<<ls[k][3], ls[k][4]>>))], NL(t))
+RefG(t, g) == LET ls == LeafSeq(t)
+              IN SumTo([k \in 1..NL(t) |-> RMul(RSq(g[k]), RSq(<<ls[k][3], ls[k][4]>>))], NL(t))
+Ref(t) == RefG(t, Grad(t))
 
 \* where a negative sigma can come from in Rule
 RECURSIVE HasNegScale(_)
@@ -366,16 +365,93 @@ JVJt(c) == [i \in 1..NB |-> [j \in 1..NB |->
               SumTo([k \in 1..NB |-> SumTo([l \in 1..NB |-> RMul(RMul(JMat(c)[i][k], VTest[k][l]), JMat(c)[j][l])], NB)], NB)]]
 
 --------------------------------------------------------------------------
-Init == \/ (fam = "rat" /\ tree \in RatTrees)
-        \/ (fam = "cal" /\ tree \in CalTrees)
-        \/ (fam = "unsup" /\ tree \in UnsupTrees)
-        \/ (fam = "trans" /\ tree \in TransTrees)
-        \/ (fam = "bound" /\ tree \in BoundCfgs)
-Next == UNCHANGED vars
+(* the step machine: one action per operator of the NumberError API         *)
+RECURSIVE TD(_)
+TD(t) == IF t = Nil THEN -1
+         ELSE IF t[1] = "U" THEN 0
+         ELSE 1 + (IF TD(t[2]) > TD(t[3]) THEN TD(t[2]) ELSE TD(t[3]))
+RatFam == fam \in {"rat", "rat3"}
+CS == IF fam = "rat3" THEN Consts3 ELSE Consts
+PN == IF fam = "rat3" THEN PowN3 ELSE PowN
+MaxD == IF fam = "rat3" THEN 3 ELSE 2
+\* operands the current tree may be combined with
+Partners == IF fam = "rat" THEN T1
+            ELSE IF fam = "rat3" THEN (IF TD(tree) <= 1 THEN S1 ELSE S0)
+            ELSE {}
+Grows == RatFam /\ TD(tree) < MaxD
 
-Exact == fam \in {"rat", "cal"}
+Init == \/ (fam = "rat" /\ tree \in T0)
+        \/ (fam = "rat3" /\ tree \in S0)
+        \/ (fam = "bound" /\ tree \in BoundCfgs)
+
+Neg == Grows /\ tree' = N("neg", tree, Nil, <<>>) /\ UNCHANGED fam
+PowC(n) == Grows /\ PowOK(tree, n) /\ tree' = N("powc", tree, Nil, <<n>>) /\ UNCHANGED fam
+OpConst(op, c) == Grows /\ tree' = N(op, tree, Nil, c) /\ UNCHANGED fam
+OpRight(op, o) == /\ Grows
+                  /\ op = "div" => RSgn(Val(o)) # 0
+                  /\ tree' = N(op, tree, o, <<>>) /\ UNCHANGED fam
+OpLeft(op, o) == /\ Grows
+                 /\ op = "div" => RSgn(Val(tree)) # 0
+                 /\ tree' = N(op, o, tree, <<>>) /\ UNCHANGED fam
+\* cal_err / apply, terminal
+CalOK == fam = "rat" /\ TD(tree) <= 1 /\ Tiny(Val(tree))
+Cal1 == CalOK /\ tree' = N("cal1", tree, Nil, <<>>) /\ fam' = "cal"
+Cal2(o) == CalOK /\ tree' = N("cal2", tree, o, <<>>) /\ fam' = "cal"
+Cal2c(c) == CalOK /\ tree' = N("cal2c", tree, Nil, c) /\ fam' = "cal"
+Cal2l(c) == CalOK /\ tree' = N("cal2l", Nil, tree, c) /\ fam' = "cal"
+Apply(n) == CalOK /\ PowOK(tree, n) /\ tree' = N("apply", tree, Nil, <<n>>) /\ fam' = "cal"
+\* number (op) NumberError, terminal
+Reflected(op, c) == fam = "rat" /\ TD(tree) = 0 /\ tree' = N(op, Nil, tree, c) /\ fam' = "unsup"
+\* transcendental operators over a rational tree of depth <= 1
+TrOK == fam = "rat" /\ TD(tree) <= 1
+IsPos == RSgn(Val(tree)) > 0
+Exp == TrOK /\ Small(Val(tree)) /\ tree' = N("exp", tree, Nil, <<>>) /\ fam' = "trans"
+Log == TrOK /\ IsPos /\ tree' = N("log", tree, Nil, <<>>) /\ fam' = "trans"
+PowH(n) == TrOK /\ IsPos /\ tree' = N("powh", tree, Nil, <<n, 2>>) /\ fam' = "trans"
+PowU(o) == TrOK /\ IsPos /\ Small(Val(o)) /\ tree' = N("powu", tree, o, <<>>) /\ fam' = "trans"
+RevPow(c) == TrOK /\ Small(Val(tree)) /\ tree' = N("rpow", Nil, tree, c) /\ fam' = "trans"
+SqrtFD == TrOK /\ IsPos /\ tree' = N("sqrtfd", tree, Nil, <<>>) /\ fam' = "trans"
+Sin == TrOK /\ Small(Val(tree)) /\ tree' = N("sin", tree, Nil, <<>>) /\ fam' = "trans"
+\* one rational operator on top of a transcendental node whose arguments are leaves
+OverLeaves == fam = "trans" /\ tree \in TT1small
+TNeg == OverLeaves /\ tree' = N("neg", tree, Nil, <<>>) /\ fam' = "trans2"
+TSquare == OverLeaves /\ tree' = N("powc", tree, Nil, <<2>>) /\ fam' = "trans2"
+TOpConst(op, c) == OverLeaves /\ tree' = N(op, tree, Nil, c) /\ fam' = "trans2"
+TOpRight(op, o) == OverLeaves /\ tree' = N(op, tree, o, <<>>) /\ fam' = "trans2"
+TOpLeft(op, o) == /\ OverLeaves
+                  /\ op = "div" => PosTag(tree)
+                  /\ tree' = N(op, o, tree, <<>>) /\ fam' = "trans2"
+TExpLog == OverLeaves /\ tree[1] = "log" /\ tree' = N("exp", tree, Nil, <<>>) /\ fam' = "trans2"
+TLogExp == OverLeaves /\ tree[1] = "exp" /\ tree' = N("log", tree, Nil, <<>>) /\ fam' = "trans2"
+
+\* (the guards are repeated in front of the quantifiers so that TLC does not
+\* enumerate the operands of states that cannot grow; one named disjunct per
+\* operator so that the coverage statistics are per operator)
+PowCs == Grows /\ \E n \in PN : PowC(n)
+OpConsts == Grows /\ \E op \in ConstOps, c \in CS : OpConst(op, c)
+OpRights == Grows /\ \E op \in BinOps, o \in Partners : OpRight(op, o)
+OpLefts == Grows /\ \E op \in BinOps, o \in Partners : OpLeft(op, o)
+Cal2s == CalOK /\ \E o \in CalArgs : Cal2(o)
+Cal2cs == CalOK /\ \E c \in Consts : Cal2c(c)
+Cal2ls == CalOK /\ \E c \in Consts : Cal2l(c)
+Applys == CalOK /\ \E n \in PowN : Apply(n)
+Reflecteds == fam = "rat" /\ TD(tree) = 0 /\ \E op \in ReflOps, c \in Consts : Reflected(op, c)
+PowHs == TrOK /\ \E n \in HalfN : PowH(n)
+PowUs == TrOK /\ \E o \in T1 : PowU(o)
+RevPows == TrOK /\ \E c \in PosConsts : RevPow(c)
+TOpConsts == OverLeaves /\ \E op \in ConstOps, c \in Consts : TOpConst(op, c)
+TOpRights == OverLeaves /\ \E op \in BinOps, o \in T0 : TOpRight(op, o)
+TOpLefts == OverLeaves /\ \E op \in BinOps, o \in T0 : TOpLeft(op, o)
+Next ==
+    \/ Neg \/ PowCs \/ OpConsts \/ OpRights \/ OpLefts
+    \/ Cal1 \/ Cal2s \/ Cal2cs \/ Cal2ls \/ Applys
+    \/ Reflecteds
+    \/ Exp \/ Log \/ SqrtFD \/ Sin \/ PowHs \/ PowUs \/ RevPows
+    \/ TNeg \/ TSquare \/ TExpLog \/ TLogExp \/ TOpConsts \/ TOpRights \/ TOpLefts
+
+Exact == fam \in {"rat", "rat3", "cal"}
 Magnitude == Exact => Rule(tree)[3] = Ref(tree)
-ValueAgrees == Exact => Rule(tree)[1] = Dual(tree, 0)[1] /\ Rule(tree)[1] = Val(tree)
+ValueAgrees == Exact => LET v == Rule(tree)[1] IN v = Dual(tree, 0)[1] /\ v = Val(tree)
 NegCharacterised == Exact /\ RuleNeg(tree) => HasNegScale(tree)
 CalNonNeg == fam = "cal" /\ tree[1] # "apply" => ~RuleNeg(tree)
 TransCharacterised ==
@@ -389,28 +465,42 @@ NonNegative == Exact => ~RuleNeg(tree)
 TransLaw == fam = "trans" /\ IsT1(tree) => TransLawOK(tree)
 
 --------------------------------------------------------------------------
-RowExact(t) == <<t, Rule(t)[1], Rule(t)[2], Rule(t)[3], Ref(t), Grad(t)>>
+RowExact(t) == LET r == Rule(t)
+                  g == Grad(t)
+              IN <<t, r[1], r[2], r[3], RefG(t, g), g>>
 RowTrans(t) == IF IsT1(t) THEN <<t, TRUE, TransMagOK(t), TransLawOK(t)>> ELSE <<t, FALSE, TRUE, TRUE>>
+RECURSIVE SumInt(_, _)
+SumInt(f, n) == IF n = 0 THEN 0 ELSE SumInt(f, n - 1) + f[n]
 AsSeq(S) == SetToSeq(S)
 MapSeq(s, Op(_)) == [i \in 1..Len(s) |-> Op(s[i])]
+
+\* the declarative families as sequences of pieces
+RatSeq == RatPieces2
+Rat3Seq == IF Depth >= 3 THEN RatPieces3 ELSE <<>>
+Pieces(ps, Op(_)) == [i \in 1..Len(ps) |-> MapSeq(AsSeq(ps[i]), Op)]
+CountP(ps) == SumInt([i \in 1..Len(ps) |-> Cardinality(ps[i])], Len(ps))
+CountIf(ps, P(_)) == SumInt([i \in 1..Len(ps) |-> Cardinality({t \in ps[i] : P(t)})], Len(ps))
+T1Fail(t) == IsT1(t) /\ ~TransLawOK(t)
+T1MagFail(t) == IsT1(t) /\ ~TransMagOK(t)
 
 Post ==
     /\ TLCGet("stats").diameter >= 0
     /\ JsonSerialize(IOEnv.OUT_FILE,
          [depth |-> Depth,
-          rat |-> MapSeq(AsSeq(RatTrees), RowExact),
+          rat |-> Pieces(RatSeq, RowExact),
+          rat3 |-> Pieces(Rat3Seq, RowExact),
           cal |-> MapSeq(AsSeq(CalTrees), RowExact),
           unsup |-> AsSeq(UnsupTrees),
-          trans |-> MapSeq(AsSeq(TransTrees), RowTrans),
+          trans |-> MapSeq(AsSeq(TT1), RowTrans),
+          trans2 |-> AsSeq(TT2),
           bound |-> AsSeq(BoundCfgs),
-          counts |-> [rat |-> Cardinality(RatTrees), cal |-> Cardinality(CalTrees),
-                      unsup |-> Cardinality(UnsupTrees), trans |-> Cardinality(TransTrees),
-                      bound |-> Cardinality(BoundCfgs),
-                      neg_sigma |-> Cardinality({t \in RatTrees \cup CalTrees : RuleNeg(t)}),
-                      neg_paths |-> Cardinality({t \in RatTrees \cup CalTrees : HasNegScale(t)}),
-                      t1 |-> Cardinality({t \in TransTrees : IsT1(t)}),
-                      law_fail |-> Cardinality({t \in TransTrees : IsT1(t) /\ ~TransLawOK(t)}),
-                      mag_fail |-> Cardinality({t \in TransTrees : IsT1(t) /\ ~TransMagOK(t)})]])
+          counts |-> [rat |-> CountP(RatSeq), rat3 |-> CountP(Rat3Seq), cal |-> Cardinality(CalTrees),
+                      unsup |-> Cardinality(UnsupTrees), trans |-> Cardinality(TT1),
+                      trans2 |-> Cardinality(TT2), bound |-> Cardinality(BoundCfgs),
+                      neg_sigma |-> CountIf(RatSeq \o Rat3Seq, RuleNeg),
+                      neg_paths |-> CountIf(RatSeq \o Rat3Seq, HasNegScale),
+                      law_fail |-> Cardinality({t \in TT1 : T1Fail(t)}),
+                      mag_fail |-> Cardinality({t \in TT1 : T1MagFail(t)})]])
 
 \* quick alphabets (cfg: ULeaves <- ULeavesQ, ...)
 ULeavesQ == {<<3, 1, 3, 10>>, <<-2, 1, 2, 5>>, <<1, 2, 1, 2>>}
